@@ -87,7 +87,7 @@ def main():
                           dict(kind="td", fn=fn_name, case=case))
         return sel
 
-    def process_cases(cases, pats, tag):
+    def process_cases(cases, pats, tag, LTA=LTA):
         order = rng.permutation(len(cases))
         for n_, ci in enumerate(order):
             case = cases[ci]
@@ -149,6 +149,13 @@ def main():
         cases_m = [cases_m[i] for i in sorted(rng.choice(len(cases_m), min(len(cases_m), 3000), replace=False).tolist())]
     run.notes["mixed_duration_cases"] = sum(1 for c in cases_m if len({len(PATS_MIXED[w[0] - 1]) for w in c["pat"]}) > 1)
     process_cases(cases_m, PATS_MIXED, "mixed")
+    # a long-term window that is not a whole number of short-term windows: lta = 2.5 x sta (the LTA ends inside the third chunk)
+    resh = tlc("TdRejectMC", "TdReject_ltahalf", timeout=3000, heap="12g")
+    require_tlc_ok(resh, "TdReject_ltahalf")
+    run.add_tlc(resh, "TdReject_ltahalf: LTA over 2.5 chunks (Refines, Conjunction, Monotone, PerWindow)")
+    cases_h = [c for c in resh.cases if isinstance(c, dict) and "pat" in c]
+    cases_h = [cases_h[i] for i in sorted(rng.choice(len(cases_h), min(len(cases_h), 6000 if quick else 60000), replace=False).tolist())]
+    process_cases(cases_h, pats, "ltahalf", LTA=2.5 * STA)
     # ---- windows of different durations in one call (PerWindow: the decision on a window depends on that window only) ----
     #      a long window = two patterns back to back; every window's joint verdict must equal its verdict alone
     mixed = 0
